@@ -170,15 +170,28 @@ SKELETONS = [
 ]
 
 
+DRV_OB = 'the driver does not panic on a decoded message routed to a running search'
+
+
+def skeleton_msgid(tree):
+    """message ID of a skeleton (0 for the AD-style notice, which has no routable ID)"""
+    try:
+        first = tree['c'][0]
+        return int.from_bytes(bytes(first['p']), 'big') if first['id'] == 2 and first['cl'] == 0 else 0
+    except Exception:
+        return 0
+
+
 class Mutation(DecodeLane):
     """every single (double) byte mutation of valid messages: k positions made fully symbolic.
-    When the decoded operation is a SearchResultDone (tag 5) the driver itself converts it with
-    LdapResult::from, so that conversion is run on the decoded operation as well."""
+    A message decoded under the skeleton's ID is then fed to one iteration of the real driver (lane B3)
+    with that ID registered as a running search."""
     name = 'C11.mutations'
 
     def __init__(self, ctx, skel, k):
         Lane.__init__(self, ctx, skel, k); self.skel = skel; self.k = k
         self.base = ber.py_encode(SKELETONS[skel][1])
+        self.msgid = skeleton_msgid(SKELETONS[skel][1])
 
     def inputs(self):
         c = self.c
@@ -194,23 +207,58 @@ class Mutation(DecodeLane):
         return {'buf': buf, 'pos': pos}
 
     def execute(self, inp):
+        """decode; a message decoded under the skeleton's own ID is then handed to ONE ITERATION OF THE REAL DRIVER
+        with that ID registered as a running search - the route on which the driver itself interprets the
+        operation (entry / reference / done incl. its conversion of the final result / anything else)"""
         r, left = DecodeLane.execute(self, inp)
-        conv = None
-        if r.variant == 'Ok' and r.fields[0].variant == 'Some':
-            tag = r.fields[0].fields[0][1][0]
-            st = tag.fields[0]
-            idv = st.fields['id']
-            if self.c.branch(idv == 5):
-                from mirsym.engine import clone_val
-                try:
-                    conv = self.c.run_fn('<LdapResult as From<Tag>>::from', [clone_val(tag)])
-                except PanicExc as e:
-                    e.stage = 'search-done-conversion'
-                    raise
+        inp['_drv'] = None
+        if r.variant == 'Ok' and r.fields[0].variant == 'Some' and self.msgid >= 1:
+            item = r.fields[0].fields[0]
+            if self.c.branch(item[0] == self.msgid):
+                inp['_drv'] = self.drive(item)
         return (r, left)
 
+    def drive(self, item):
+        from . import driver
+        from mirsym.engine import clone_val
+        ds = driver.DriverStep(self.c, 'C11', 0, 1)
+        k = z3.BitVecVal(self.msgid, 32)
+        d = {'event': 'resp', 'rkeys': [], 'skeys': [k], 'arr': z3.K(z3.BitVecSort(32), TRUE), 'id': k, '_inject': clone_val(item), 'send_fails': False}
+        try:
+            o = ds.execute(d)
+        except PanicExc as e:
+            return ('panic', e)
+        poll = o['poll']
+        res = 'pending' if poll.variant == 'Pending' else ('ok' if poll.fields[0].variant == 'Ok' else 'err')
+        return (res, len(o['stoks'][0].sent))
+
     def oracle(self, inp, out):
-        return self.contract(inp, out)
+        obs = self.contract(inp, out)
+        drv = inp.get('_drv')
+        if drv is not None:
+            obs.append((DRV_OB, z3.BoolVal(drv[0] != 'panic')))
+            obs.append(('a message for a running search is either delivered to it or ends the connection with an error', z3.BoolVal(drv[0] == 'panic' or (drv[0] == 'pending') == (drv[1] == 1))))
+        return obs
+
+    def replay_by_role(self, cinp, obname, out, m):
+        if obname != DRV_OB and 'running search' not in obname:
+            return self.default_replay(cinp, self.case(cinp), out, m)
+        from .scenarios import script, step, BIND, BIND_OK, okres, stream_start
+        # the same bytes, sent by a scripted peer as the answer to a search that runs under the skeleton's ID
+        pre = self.msgid - 1
+        steps = ([BIND] if pre >= 1 else []) + [{'do': 'delete', 'dn': 'dc=x'}] * max(0, pre - 1) + [stream_start([]), {'do': 'next'}, {'do': 'driver'}]
+        server = ([BIND_OK] if pre >= 1 else []) + [{'replies': [{'id': 'req', 'op': okres(11)}]}] * max(0, pre - 1) + [{'replies': [{'raw': ints(cinp['buf'])}]}]
+        case = script(steps, server)
+        nj = native([case])[0]
+        v = nj.get('value') or {}
+        dr = step(v, 'driver'); nx = step(v, 'next')
+        bad = None
+        if v.get('driver') == 'panic' or dr == 'panic' or (isinstance(nx, dict) and 'panic' in nx):
+            bad = f'the connection driver panicked on this message for a running search (next(): {json.dumps(nx)[:80]}, driver: {v.get("driver")})'
+        elif nx == 'hang' and v.get('driver') == 'running' and obname != DRV_OB:
+            bad = 'the message was neither delivered to the search nor ended the connection'
+        det = {'native_steps': v.get('steps'), 'driver': v.get('driver'), 'bytes': ints(cinp['buf'])}
+        return bool(bad), 'driver-panic:search-route' if bad and 'panick' in bad else None, (f'{SKELETONS[self.skel][0]} mutated at {cinp.get("pos")}: {bad}' if bad else None), case, det
 
     def in_summary(self, inp, model=None):
         return {'skeleton': SKELETONS[self.skel][0], 'positions': inp.get('pos'), 'bytes': DecodeLane.in_summary(self, inp, model)}
@@ -317,7 +365,7 @@ def body(chk):
     run_lane(chk, driver.DriverStep, ('C11', 1, 1), bounds={'driver step': 'a response with any ID and any operation tag <= 30 (incl. unexpected operations for a search ID), or a receive/decode error'}, selftest=False, need_regions=('resp', 'resp-err'))
     chk.assumptions += [
         'decoder part + driver reaction (lane B3, one iteration): the driver reaction (unknown operation for a search ID, error propagation to pending operations) needs lane B3',
-        'the SearchResultDone conversion the driver performs itself (LdapResult::from) is run on every decoded tag-5 operation',
+        'mutation lane, second stage: every message decoded under its skeleton\'s own ID is handed to one iteration of the real driver coroutine with that ID registered as a running search (the route on which the driver interprets the operation itself, incl. its conversion of SearchResultDone)',
         'arbitrary lane: every byte string up to the stated length; mutation lane: 1 (2) fully symbolic byte(s) at every position of each valid skeleton',
         'stack exhaustion is shown by the recursion-depth measurement on symbolic input plus a native replay in a child process',
         'engine B executes rustc MIR of the current tree; std/nom/bytes callees are modelled and validated by the concrete differential self-test',
